@@ -326,6 +326,20 @@ fn operands_n(l: Layout, g: u32, tier: Tier, nmax: u128) -> Vec<u128> {
             }
         }
     }
+    // 2^e / k rounded both ways, for small k that are not powers of two: values with a periodic binary expansion, whose
+    // reciprocal (powi with a negative exponent, the inversion branches of sqrt and log2) is an integer multiple of a
+    // power of two less a hair -- quotient digits of the underlying division at the top of their range
+    {
+        let estep = if g <= 1 { 6 } else { 2 };
+        for e in (l.frac.saturating_sub(60)..top).step_by(estep) {
+            let ks: &[u128] = if g <= 1 { &[3, 7, 13, 100] } else { &[3, 5, 7, 9, 11, 13, 15, 17, 100] };
+            for &k in ks {
+                let q = (1u128 << e) / k;
+                push_unique(&mut v, &mut seen, q, m);
+                push_unique(&mut v, &mut seen, q + 1, m);
+            }
+        }
+    }
     for j in 0..=4u128 {
         push_unique(&mut v, &mut seen, one + j, m);
         push_unique(&mut v, &mut seen, one - j, m);
